@@ -354,7 +354,7 @@ pub mod sched {
     use std::sync::{Condvar, Mutex, OnceLock};
 
     #[derive(Clone, Debug, PartialEq)]
-    pub enum Op { Start, Lock(usize), TryLock(usize), Unlock(usize), Join(usize), Exit }
+    pub enum Op { Start, Lock(usize), TryLock(usize), Unlock(usize), Join(usize), Exit, Yield }
 
     #[derive(Clone, Debug, PartialEq)]
     enum TState { Running, Parked(Op), Finished }
@@ -400,6 +400,9 @@ pub mod sched {
     pub fn active() -> bool { TID.with(|t| t.get().is_some()) }
 
     pub fn current() -> Option<usize> { TID.with(|t| t.get()) }
+
+    /// A scheduling point without any effect on the locks (always enabled).
+    pub fn yield_point() { if active() { point(Op::Yield); } }
 
     pub fn new_lock_id() -> usize {
         if !active() { return usize::MAX; }
